@@ -46,57 +46,57 @@ def cstring (data : Bytes) (maxLen : Nat) : Bytes := (data.take maxLen).takeWhil
 
 /-! ### Oid constants -/
 
-def OidBool := 16
-def OidBytea := 17
-def OidChar := 18
-def OidName := 19
-def OidInt8 := 20
-def OidInt2 := 21
-def OidInt4 := 23
-def OidText := 25
-def OidOid := 26
-def OidTid := 27
-def OidXid := 28
-def OidCid := 29
-def OidJSON := 114
-def OidXML := 142
-def OidPoint := 600
-def OidLseg := 601
-def OidPath := 602
-def OidBox := 603
-def OidPolygon := 604
-def OidLine := 628
-def OidCircle := 718
-def OidCidr := 650
-def OidFloat4 := 700
-def OidFloat8 := 701
-def OidMacaddr8 := 774
-def OidMoney := 790
-def OidMacaddr := 829
-def OidInet := 869
-def OidBpchar := 1042
-def OidVarchar := 1043
-def OidDate := 1082
-def OidTime := 1083
-def OidTimestamp := 1114
-def OidTimestampTZ := 1184
-def OidInterval := 1186
-def OidTimeTZ := 1266
-def OidBit := 1560
-def OidVarbit := 1562
-def OidNumeric := 1700
-def OidUUID := 2950
-def OidPgLsn := 3220
-def OidTsvector := 3614
-def OidTsquery := 3615
-def OidJSONB := 3802
-def OidJSONPath := 4072
-def OidInt4Range := 3904
-def OidNumRange := 3906
-def OidTsRange := 3908
-def OidTsTzRange := 3910
-def OidDateRange := 3912
-def OidInt8Range := 3926
+abbrev OidBool : Nat := 16
+abbrev OidBytea : Nat := 17
+abbrev OidChar : Nat := 18
+abbrev OidName : Nat := 19
+abbrev OidInt8 : Nat := 20
+abbrev OidInt2 : Nat := 21
+abbrev OidInt4 : Nat := 23
+abbrev OidText : Nat := 25
+abbrev OidOid : Nat := 26
+abbrev OidTid : Nat := 27
+abbrev OidXid : Nat := 28
+abbrev OidCid : Nat := 29
+abbrev OidJSON : Nat := 114
+abbrev OidXML : Nat := 142
+abbrev OidPoint : Nat := 600
+abbrev OidLseg : Nat := 601
+abbrev OidPath : Nat := 602
+abbrev OidBox : Nat := 603
+abbrev OidPolygon : Nat := 604
+abbrev OidLine : Nat := 628
+abbrev OidCircle : Nat := 718
+abbrev OidCidr : Nat := 650
+abbrev OidFloat4 : Nat := 700
+abbrev OidFloat8 : Nat := 701
+abbrev OidMacaddr8 : Nat := 774
+abbrev OidMoney : Nat := 790
+abbrev OidMacaddr : Nat := 829
+abbrev OidInet : Nat := 869
+abbrev OidBpchar : Nat := 1042
+abbrev OidVarchar : Nat := 1043
+abbrev OidDate : Nat := 1082
+abbrev OidTime : Nat := 1083
+abbrev OidTimestamp : Nat := 1114
+abbrev OidTimestampTZ : Nat := 1184
+abbrev OidInterval : Nat := 1186
+abbrev OidTimeTZ : Nat := 1266
+abbrev OidBit : Nat := 1560
+abbrev OidVarbit : Nat := 1562
+abbrev OidNumeric : Nat := 1700
+abbrev OidUUID : Nat := 2950
+abbrev OidPgLsn : Nat := 3220
+abbrev OidTsvector : Nat := 3614
+abbrev OidTsquery : Nat := 3615
+abbrev OidJSONB : Nat := 3802
+abbrev OidJSONPath : Nat := 4072
+abbrev OidInt4Range : Nat := 3904
+abbrev OidNumRange : Nat := 3906
+abbrev OidTsRange : Nat := 3908
+abbrev OidTsTzRange : Nat := 3910
+abbrev OidDateRange : Nat := 3912
+abbrev OidInt8Range : Nat := 3926
 
 /-- types.go:arrayElemTypes (only the key set matters to the dispatch) -/
 def arrayElemTypes : List (Nat × Nat) :=
@@ -310,7 +310,10 @@ structure Ext where
   /-- `encoding/json.Unmarshal` into `interface{}`: `none` = error -/
   jsonUnmarshal : Bytes → Option GoVal
 
-/-! ### decodeScalar / DecodeType -/
+/-! ### decodeScalar / DecodeType
+
+The Go `switch oid` is a chain of tests on distinct constants; every case body is its own function
+(`decX`), so that each can be reasoned about separately. -/
 
 def isTextOid (oid : Nat) : Bool :=
   oid == OidText || oid == OidVarchar || oid == OidBpchar || oid == OidXML || oid == OidJSONPath
@@ -319,90 +322,138 @@ def isRangeOid (oid : Nat) : Bool :=
   oid == OidInt4Range || oid == OidInt8Range || oid == OidNumRange || oid == OidTsRange ||
   oid == OidTsTzRange || oid == OidDateRange
 
+/-- the repaired guard: `if n, ok := fixedLengths[oid]; ok && len(data) < n { return nil }` -/
+def shortInput (data : Bytes) (oid : Nat) : Bool :=
+  match fixedLengths.lookup oid with
+  | some n => data.length < n
+  | none => false
+
+def decBool (data : Bytes) : M GoVal := do return .bool ((← idx data 0) != 0)
+def decChar (data : Bytes) : M GoVal := do return .str (← sliceTo data 1)
+def decInt2 (data : Bytes) : M GoVal := do return .int (← i16 data 0)
+def decInt4 (data : Bytes) : M GoVal := do return .int (← i32 data 0)
+def decInt8 (data : Bytes) : M GoVal := do return .int (← i64 data 0)
+/-- oid, and (repaired) xid / cid: unsigned -/
+def decU32 (data : Bytes) : M GoVal := do return .int (← u32 data 0)
+def decTid (data : Bytes) : M GoVal := do
+  return .str ([40] ++ decNat (← u32 data 0) ++ [44] ++ decNat (← u16 data 4) ++ [41])
+def decFloat4 (data : Bytes) : M GoVal := do return .f32 (← u32 data 0)
+def decFloat8 (data : Bytes) : M GoVal := do return .f64 (← u64 data 0)
+def decMoney (data : Bytes) : M GoVal := do return .str ([36] ++ moneyText (← i64 data 0))
+def decJSON (ext : Ext) (data : Bytes) : GoVal :=
+  match ext.jsonUnmarshal data with
+  | some v => v
+  | none => .str (safeString data)
+
+def decDate (data : Bytes) : M GoVal := do
+  let days ← i32 data 0
+  if days = 2147483647 then return lit "infinity"
+  if days = -2147483648 then return lit "-infinity"
+  return .str (fmtDate (days + 10957))
+
+def decTime (data : Bytes) : M GoVal := do return .str (fmtTimeOfDay (← i64 data 0))
+
+def decTimeTZ (data : Bytes) : M GoVal := do
+  let us ← i64 data 0
+  let tz ← i32 data 8
+  return .str (fmtTimeOfDay us ++ fmtZone tz)
+
+def decTimestamp (data : Bytes) : M GoVal := do
+  let us ← i64 data 0
+  if us = 9223372036854775807 then return lit "infinity"
+  if us = -9223372036854775808 then return lit "-infinity"
+  let sec := us.tdiv 1000000
+  let sec := if us.tmod 1000000 < 0 then sec - 1 else sec
+  return .str (fmtUnix (pgEpochUnix + sec))
+
+/-- `%02x:%02x:…` over `data[0] … data[n-1]` -/
+def macBytes (data : Bytes) : Nat → Nat → M (List Bytes)
+  | 0, _ => pure []
+  | n+1, i => do
+    let b ← idx data i
+    let rest ← macBytes data n (i + 1)
+    pure (hexPad 2 b.toNat :: rest)
+
+def decMac (data : Bytes) (n : Nat) : M GoVal := do return .str (joinBytes [58] (← macBytes data n 0))
+
+def decUUID (data : Bytes) : M GoVal := do
+  let a ← slice data 0 4
+  let b ← slice data 4 6
+  let c ← slice data 6 8
+  let d ← slice data 8 10
+  let e ← slice data 10 16
+  return .str (hexBytes a ++ [45] ++ hexBytes b ++ [45] ++ hexBytes c ++ [45] ++ hexBytes d ++ [45] ++ hexBytes e)
+
+def decPgLsn (data : Bytes) : M GoVal := do
+  return .str (hexNat true (← u32 data 0) ++ [47] ++ hexNat true (← u32 data 4))
+
+def decPoint (data : Bytes) : M GoVal := do return fstr (← decodePoint data)
+
+def decLseg (data : Bytes) : M GoVal := do
+  let p1 ← decodePoint (← slice data 0 16)
+  let p2 ← decodePoint (← slice data 16 32)
+  return fstr ([lit "["] ++ p1 ++ [lit ","] ++ p2 ++ [lit "]"])
+
+def decBox (data : Bytes) : M GoVal := do
+  let p1 ← decodePoint (← slice data 0 16)
+  let p2 ← decodePoint (← slice data 16 32)
+  return fstr ([lit "("] ++ p1 ++ [lit "),("] ++ p2 ++ [lit ")"])
+
+def decLine (data : Bytes) : M GoVal := do
+  let a ← u64 data 0
+  let b ← u64 data 8
+  let c ← u64 data 16
+  return fstr [lit "{", hole a, lit ",", hole b, lit ",", hole c, lit "}"]
+
+def decCircle (data : Bytes) : M GoVal := do
+  let p ← decodePoint (← slice data 0 16)
+  let r ← u64 data 16
+  return fstr ([lit "<"] ++ p ++ [lit ",", hole r, lit ">"])
+
+def decJSONB (ext : Ext) (data : Bytes) : M GoVal := do
+  match ← ext.parseJSONB data with
+  | .nil => return .str (safeString data)
+  | v => return v
+
 /-- decodeScalar without the range case (which needs DecodeType itself for its bounds) -/
-def decodeScalar0 (ext : Ext) (data : Bytes) (oid : Nat) : M GoVal := do
-  if let some n := fixedLengths.lookup oid then
-    if data.length < n then return .nil
-  if oid == OidBool then return .bool ((← idx data 0) != 0)
-  if oid == OidChar then return .str (← sliceTo data 1)
-  if oid == OidName then return .str (cstring data 64)
-  if oid == OidInt2 then return .int (← i16 data 0)
-  if oid == OidInt4 then return .int (← i32 data 0)
-  if oid == OidXid || oid == OidCid then return .int (← u32 data 0)
-  if oid == OidInt8 then return .int (← i64 data 0)
-  if oid == OidOid then return .int (← u32 data 0)
-  if oid == OidTid then
-    return .str ([40] ++ decNat (← u32 data 0) ++ [44] ++ decNat (← u16 data 4) ++ [41])
-  if oid == OidFloat4 then return .f32 (← u32 data 0)
-  if oid == OidFloat8 then return .f64 (← u64 data 0)
-  if oid == OidMoney then return .str ([36] ++ moneyText (← i64 data 0))
-  if isTextOid oid then return .str (safeString data)
-  if oid == OidJSON then
-    match ext.jsonUnmarshal data with
-    | some v => return v
-    | none => return .str (safeString data)
-  if oid == OidBytea then return .str ([92, 120] ++ hexBytes data)
-  if oid == OidBit || oid == OidVarbit then return ← decodeBitString data
-  if oid == OidDate then
-    let days ← i32 data 0
-    if days == 2147483647 then return lit "infinity"
-    if days == -2147483648 then return lit "-infinity"
-    return .str (fmtDate (days + 10957))
-  if oid == OidTime then return .str (fmtTimeOfDay (← i64 data 0))
-  if oid == OidTimeTZ then
-    let us ← i64 data 0
-    let tz ← i32 data 8
-    return .str (fmtTimeOfDay us ++ fmtZone tz)
-  if oid == OidTimestamp || oid == OidTimestampTZ then
-    let us ← i64 data 0
-    if us == 9223372036854775807 then return lit "infinity"
-    if us == -9223372036854775808 then return lit "-infinity"
-    let sec := us.tdiv 1000000
-    let sec := if us.tmod 1000000 < 0 then sec - 1 else sec
-    return .str (fmtUnix (pgEpochUnix + sec))
-  if oid == OidInterval then return ← decodeInterval data
-  if oid == OidMacaddr then
-    let bs ← [0, 1, 2, 3, 4, 5].mapM fun i => idx data i
-    return .str (joinBytes [58] (bs.map fun b => hexPad 2 b.toNat))
-  if oid == OidMacaddr8 then
-    let bs ← [0, 1, 2, 3, 4, 5, 6, 7].mapM fun i => idx data i
-    return .str (joinBytes [58] (bs.map fun b => hexPad 2 b.toNat))
-  if oid == OidInet || oid == OidCidr then return ← decodeInet data
-  if oid == OidUUID then
-    let a ← slice data 0 4
-    let b ← slice data 4 6
-    let c ← slice data 6 8
-    let d ← slice data 8 10
-    let e ← slice data 10 16
-    return .str (hexBytes a ++ [45] ++ hexBytes b ++ [45] ++ hexBytes c ++ [45] ++ hexBytes d ++ [45] ++ hexBytes e)
-  if oid == OidPgLsn then
-    return .str (hexNat true (← u32 data 0) ++ [47] ++ hexNat true (← u32 data 4))
-  if oid == OidPoint then return fstr (← decodePoint data)
-  if oid == OidLseg then
-    let p1 ← decodePoint (← slice data 0 16)
-    let p2 ← decodePoint (← slice data 16 32)
-    return fstr ([lit "["] ++ p1 ++ [lit ","] ++ p2 ++ [lit "]"])
-  if oid == OidBox then
-    let p1 ← decodePoint (← slice data 0 16)
-    let p2 ← decodePoint (← slice data 16 32)
-    return fstr ([lit "("] ++ p1 ++ [lit "),("] ++ p2 ++ [lit ")"])
-  if oid == OidLine then
-    let a ← u64 data 0
-    let b ← u64 data 8
-    let c ← u64 data 16
-    return fstr [lit "{", hole a, lit ",", hole b, lit ",", hole c, lit "}"]
-  if oid == OidCircle then
-    let p ← decodePoint (← slice data 0 16)
-    let r ← u64 data 16
-    return fstr ([lit "<"] ++ p ++ [lit ",", hole r, lit ">"])
-  if oid == OidPath || oid == OidPolygon then return ← decodePathOrPolygon data oid
-  if oid == OidNumeric then return ← ext.decodeNumeric data
-  if oid == OidTsvector || oid == OidTsquery then return .str (safeString data)
-  if oid == OidJSONB then
-    match ← ext.parseJSONB data with
-    | .nil => return .str (safeString data)
-    | v => return v
-  return .str (safeString data)
+def decodeScalar0 (ext : Ext) (data : Bytes) (oid : Nat) : M GoVal :=
+  if shortInput data oid then pure .nil
+  else if oid = OidBool then decBool data
+  else if oid = OidChar then decChar data
+  else if oid = OidName then pure (.str (cstring data 64))
+  else if oid = OidInt2 then decInt2 data
+  else if oid = OidInt4 then decInt4 data
+  else if oid = OidXid ∨ oid = OidCid then decU32 data
+  else if oid = OidInt8 then decInt8 data
+  else if oid = OidOid then decU32 data
+  else if oid = OidTid then decTid data
+  else if oid = OidFloat4 then decFloat4 data
+  else if oid = OidFloat8 then decFloat8 data
+  else if oid = OidMoney then decMoney data
+  else if isTextOid oid then pure (.str (safeString data))
+  else if oid = OidJSON then pure (decJSON ext data)
+  else if oid = OidBytea then pure (.str ([92, 120] ++ hexBytes data))
+  else if oid = OidBit ∨ oid = OidVarbit then decodeBitString data
+  else if oid = OidDate then decDate data
+  else if oid = OidTime then decTime data
+  else if oid = OidTimeTZ then decTimeTZ data
+  else if oid = OidTimestamp ∨ oid = OidTimestampTZ then decTimestamp data
+  else if oid = OidInterval then decodeInterval data
+  else if oid = OidMacaddr then decMac data 6
+  else if oid = OidMacaddr8 then decMac data 8
+  else if oid = OidInet ∨ oid = OidCidr then decodeInet data
+  else if oid = OidUUID then decUUID data
+  else if oid = OidPgLsn then decPgLsn data
+  else if oid = OidPoint then decPoint data
+  else if oid = OidLseg then decLseg data
+  else if oid = OidBox then decBox data
+  else if oid = OidLine then decLine data
+  else if oid = OidCircle then decCircle data
+  else if oid = OidPath ∨ oid = OidPolygon then decodePathOrPolygon data oid
+  else if oid = OidNumeric then ext.decodeNumeric data
+  else if oid = OidTsvector ∨ oid = OidTsquery then pure (.str (safeString data))
+  else if oid = OidJSONB then decJSONB ext data
+  else pure (.str (safeString data))
 
 /-- DecodeType restricted to non-range scalars: what decodeRange calls for its bounds -/
 def decodeType0 (ext : Ext) (data : Bytes) (oid : Nat) : M GoVal := do
